@@ -28,9 +28,12 @@ theorem pkgBlocks_sizes : ∀ (toks : List Bytes) (bs : List Loc), pkgBlocks tok
           · exact pkgBlocks_sizes rest bs' hr b hb
       · rw [if_neg hlt] at h; cases h
 
+/-- the empty-directory marker the collection filesystem writes: a zero-length token named `.` -/
+def IsMarker (f : FTok) : Prop := f.len = 0 ∧ f.name = [bDot]
+
 theorem pkgFileToks_inside (sname : Bytes) (total : Nat) : ∀ (toks : List Bytes) (fs : List FTok) (e : Bool),
     pkgFileToks sname total toks = (fs, e) → ∀ f ∈ fs, f.pos + f.len ≤ total ∧
-      (f.len > 0 → fixStreamName (pathOf sname f.name) = pathOf sname f.name)
+      (¬ IsMarker f → fixStreamName (pathOf sname f.name) = pathOf sname f.name)
   | [], fs, e, h, f, hf => by simp [pkgFileToks] at h; rw [h.1] at hf; simp at hf
   | t :: rest, fs, e, h, f, hf => by
     unfold pkgFileToks at h
@@ -42,7 +45,7 @@ theorem pkgFileToks_inside (sname : Bytes) (total : Nat) : ∀ (toks : List Byte
       by_cases hgt : g.pos > total ∨ g.len > total - g.pos
       · rw [if_pos hgt] at h; simp only [Prod.mk.injEq] at h; rw [← h.1] at hf; simp at hf
       · rw [if_neg hgt] at h
-        by_cases hcl : g.len > 0 ∧ fixStreamName (sname ++ bSlash :: g.name) ≠ sname ++ bSlash :: g.name
+        by_cases hcl : ¬ (g.len = 0 ∧ g.name = [bDot]) ∧ fixStreamName (sname ++ bSlash :: g.name) ≠ sname ++ bSlash :: g.name
         · rw [if_pos hcl] at h; simp only [Prod.mk.injEq] at h; rw [← h.1] at hf; simp at hf
         · rw [if_neg hcl] at h
           cases hr : pkgFileToks sname total rest with
@@ -61,8 +64,8 @@ theorem pkgFileToks_inside (sname : Bytes) (total : Nat) : ∀ (toks : List Byte
 /-- whatever the input line, a stream without error has this shape -/
 theorem pkgParseStream_shape (line : Bytes) (h : (pkgParseStream line).err = false) :
     ∃ s : Stream, pkgParseStream line = toPStream s ∧ (∀ b ∈ s.blocks, b.size < two63) ∧
-      streamLen s.blocks < two64 ∧ ∀ f ∈ s.files, f.pos + f.len ≤ (offsetsFrom 0 s.blocks).getLastD 0 ∧
-        (f.len > 0 → fixStreamName (pathOf s.name f.name) = pathOf s.name f.name) := by
+      streamLen s.blocks < two64 ∧ (s.name = [bDot] ∨ [bDot, bSlash].isPrefixOf s.name = true) ∧ ∀ f ∈ s.files, f.pos + f.len ≤ (offsetsFrom 0 s.blocks).getLastD 0 ∧
+        (¬ IsMarker f → fixStreamName (pathOf s.name f.name) = pathOf s.name f.name) := by
   unfold pkgParseStream at h ⊢
   cases hs : splitOn bSpace line with
   | nil => rw [hs] at h; simp at h
@@ -91,7 +94,14 @@ theorem pkgParseStream_shape (line : Bytes) (h : (pkgParseStream line).err = fal
               rw [hft] at h
               simp only [] at h ⊢
               subst h
-              exact ⟨⟨pkgUnescape nm, blocks, files⟩, rfl, pkgBlocks_sizes _ _ hpb, Nat.lt_of_not_ge hov,
+              have hshape : pkgUnescape nm = [bDot] ∨ [bDot, bSlash].isPrefixOf (pkgUnescape nm) = true := by
+                by_cases h1 : pkgUnescape nm = [bDot]
+                · exact Or.inl h1
+                · right
+                  cases hb : [bDot, bSlash].isPrefixOf (pkgUnescape nm) with
+                  | true => rfl
+                  | false => exact absurd ⟨h1, by rw [hb]; simp⟩ hn
+              exact ⟨⟨pkgUnescape nm, blocks, files⟩, rfl, pkgBlocks_sizes _ _ hpb, Nat.lt_of_not_ge hov, hshape,
                 pkgFileToks_inside _ _ _ _ _ hft⟩
 
 /-- stream and file names in the canonical form `fixStreamName` leaves alone (since fix b1a09e4
@@ -106,7 +116,7 @@ def ofPStream (ps : PStream) : Stream := ⟨ps.name, ps.blocks, ps.files⟩
 
 theorem pstream_fit (line : Bytes) (h : (pkgParseStream line).err = false) :
     pkgParseStream line = toPStream (ofPStream (pkgParseStream line)) ∧ PkgFit (ofPStream (pkgParseStream line)) := by
-  obtain ⟨s, hs, h1, hw, h2⟩ := pkgParseStream_shape line h
+  obtain ⟨s, hs, h1, hw, _, h2⟩ := pkgParseStream_shape line h
   rw [hs]
   have e : ofPStream (toPStream s) = s := rfl
   rw [e]
